@@ -332,7 +332,7 @@ func (env *SpecEnv) eval(e *Expr) (Val, error) {
 			v := Var("q$"+b.Name, srt)
 			bs = append(bs, v)
 			sub.bound[b.Name] = Val{T: v, GoT: gt}
-			if gt != nil {
+			if gt != nil && srt != SStr {
 				guards = append(guards, x.eng.typeInv(v, gt, x.mode, nil))
 			}
 		}
@@ -955,6 +955,38 @@ func (env *SpecEnv) evalCall(e *Expr) (Val, error) {
 			return Val{}, err
 		}
 		return Val{T: ifTag(a.T)}, nil
+	case "store":
+		if err := argN(3); err != nil {
+			return Val{}, err
+		}
+		a, err := env.eval(e.Args[0])
+		if err != nil {
+			return Val{}, err
+		}
+		i, err := env.eval(e.Args[1])
+		if err != nil {
+			return Val{}, err
+		}
+		v, err := env.eval(e.Args[2])
+		if err != nil {
+			return Val{}, err
+		}
+		if !isArr(a.T.Sort) {
+			return Val{}, fmt.Errorf("store() needs an array value")
+		}
+		return Val{T: Store(a.T, i.T, v.T)}, nil
+	case "arrval":
+		// the backing array of a slice as an SMT array value (index it with off(s)+i)
+		a, err := env.eval(e.Args[0])
+		if err != nil {
+			return Val{}, err
+		}
+		sl, ok := a.GoT.Underlying().(*types.Slice)
+		if !ok {
+			return Val{}, fmt.Errorf("arrval() needs a slice")
+		}
+		h := env.heapGet(x.elemKey(sl.Elem()), SArr(SInt, SArr(SInt, x.sortOf(sl.Elem()))))
+		return Val{T: Select(h, slArr(a.T))}, nil
 	case "arr", "off":
 		a, err := env.eval(e.Args[0])
 		if err != nil {
